@@ -449,6 +449,35 @@ def pristine_main(plan, objname, opname, args, sl=None):
     return ans
 
 
+def twin_main(plan, objname, opname, args):
+    """Runs in a pristine child: derive the (derived, low-level) target by its recipe, flood the Parent cache so that
+    nothing of the derivation is handed out again, rebuild the target BY VALUE through the public constructors, and ask
+    the twin the question.  Returns {"skip": why} when the rebuilt object is not structurally equal to the original."""
+    from inscripta.biocantor.parent.parent import Parent
+
+    it = Interp(plan)
+    try:
+        orig = it.ensure(objname)
+    except Exception as e:
+        return {"skip": "derivation_raises:" + type(e).__name__}
+    if orig is None:
+        return {"skip": "none"}
+    before = cjson(orig)
+    for i in range(1100):
+        Parent(id=f"twin-flood-{i}")
+    try:
+        twin = build.rebuild_by_value(orig)
+    except Exception as e:
+        return {"skip": "rebuild_raises:" + type(e).__name__}
+    if twin is orig:
+        return {"skip": "singleton"}
+    if cjson(twin) != before:
+        return {"skip": "not_structurally_equal"}
+    it.live[objname] = twin
+    _, ans = it.answer(objname, opname, args)
+    return {"ans": ans}
+
+
 # ---------------------------------------------------------------------------------------------------------------
 # expression identity (memo key for pristine answers)
 
